@@ -175,8 +175,21 @@ def run(ck: Checker):
                 ok = True
             ck.check(ok, 'C03.EMIT', hm, c, f'{cname}: added inputs are labels of the argument\'s inputs', f'`{norm(c)[:120]}` adds inputs not drawn from the argument',
                      construct=f'{hq}: add_inputs')
+    # input removal is the user's request only: the library itself never constructs the pass with it
+    def _asks_removal(call):
+        vals = [k.value for k in call.keywords if k.arg == 'allow_inputs_removal'] + list(call.args[:1])
+        return any(not (isinstance(v, ast.Constant) and v.value is False) for v in vals) or any(k.arg is None for k in call.keywords)
+    probe = ast.parse('RemoveRedundantGates(allow_inputs_removal=True)').body[0].value
+    ck.need(_asks_removal(probe) and not _asks_removal(ast.parse('RemoveRedundantGates()').body[0].value), 'C03.IFACE probe for input-removal requests does not discriminate (checker defect)')
+    n_sites = 0
+    for m in repo.modules.values():
+        for c in calls_in(m.tree, 'RemoveRedundantGates'):
+            n_sites += 1
+            ck.check(not _asks_removal(c), 'C03.IFACE', m, c, 'passes and pipelines of the library apply RemoveRedundantGates without input removal (inputs disappear only when the caller asked for it)',
+                     f'`{norm(c)}` requests input removal inside the library: unreachable inputs vanish although the caller did not ask', construct=f'{norm(c.func)}(...) construction in {m.enclosing_function(c).name if m.enclosing_function(c) else "<module>"}')
+    ck.need(n_sites >= 4, f'only {n_sites} RemoveRedundantGates constructions found (4 confirmed by reading)')
     ck.floor('C03.FRESH', 4)
-    ck.floor('C03.IFACE', 8)
+    ck.floor('C03.IFACE', 12)
     ck.floor('C03.EMIT', 6)
 
     # ---- SYM ----
@@ -238,6 +251,12 @@ def run(ck: Checker):
         ck.check(ts in (neg_types, pos_types), 'C03.UNARY', mu, node.test, 'a unary family test lists exactly the negation types or exactly the buffer types',
                  f'family {sorted(ts)} is neither {sorted(neg_types)} nor {sorted(pos_types)}', construct=f'unary family {sorted(ts)} at {mu.qualname_of(node)}')
     ck.floor('C03.UNARY', 10)
+    ck.rule('C03.FOLD', 'each pass folded by the mini-evaluator over a family of model circuits (shapes named by the property + seeded random ones) with oracle traversals in two visiting orders: new circuit, argument untouched, same inputs, same outputs count and functions, well formed, not larger')
+    from .. import passes
+    passes.fold_passes(ck, 'C03.FOLD')
+    ck.floor('C03.FOLD', 5)
+    from .C18 import unary_chain_fold
+    unary_chain_fold(ck, rule='C03.UNARY')
     ck.rule('C18.IDEM', 'pipelines skip a pass only if it is idempotent and equal to the one just applied (shared with C18): a requested input removal is never dropped')
     from .C18 import idem_rules
     idem_rules(ck)
